@@ -330,6 +330,9 @@ class CallMixin:
                 self.add_hyp(t, st)
             except Unsupported as e:
                 self.elab_fail('postcondition of %s %r: %s' % (label, c.text, e))
+        if spec.ensures and not self.mute:
+            # vacuity canary: the assumed postcondition must not contradict what is known at this call site
+            self.cover('after-%s' % re.sub(r'[^A-Za-z0-9_.$]', '_', label)[:40], st, pos)
         if not vals:
             return None
         if len(vals) == 1:
@@ -353,9 +356,24 @@ class CallMixin:
                     for p, s, lt in self.ty.leaves(x.elem):
                         name = self.leaf_name('E|%s' % x.elem, p)
                         arr = self.heap_get(st, name, T.ARR(T.INT, T.ARR(T.INT, s)))
-                        self.record_write(('heap', name))
+                        self.record_write(('heap', name), x.base)
                         st.heap[name] = T.store(arr, x.base, T.fresh('hv_elems', T.ARR(T.INT, s)))
                     continue
+                m = re.match(r'^\*(\w+)$', loc)
+                if m:
+                    # *x : everything the pointer (or the pointer inside the interface value) x designates
+                    x, tn = self.eval(parse_expr(m.group(1)), env)
+                    if is_term(x) and x in self.iface_static:
+                        ptn, px = self.iface_static[x]
+                        x, tn = px, ptn
+                    if is_term(x) and tn and self.ty.kind(tn) == 'pointer' and self.ty.kind(self.ty.elem(tn)) == 'struct':
+                        stn = self.ty.elem(tn)
+                        for fname, ftype in self.ty.struct_fields(stn):
+                            v = self.ty.symbolic(ftype, 'hv_' + fname)
+                            self.assume_facts(v, ftype)
+                            self.store(st, PtrV('field', x, stn, None, (fname,)), v)
+                        continue
+                    raise Unsupported('modifies %s: target type unknown; everything havoced' % loc)
                 m = re.match(r'^(.*)\.\*$', loc)
                 if m:
                     x, tn = self.eval(parse_expr(m.group(1)), env)
@@ -389,7 +407,7 @@ class CallMixin:
                     name = 'G|' + ast[1]
                     sort = SORTS[self.specs_ghostfields()[ast[1]]]
                     arr = self.heap_get(st, name, T.ARR(T.INT, sort))
-                    self.record_write(('heap', name))
+                    self.record_write(('heap', name), x)
                     st.heap[name] = T.store(arr, x, T.fresh('hv_' + ast[1], sort))
                     continue
                 raise Unsupported('modifies %s' % loc)
@@ -515,7 +533,7 @@ class CallMixin:
         for p, srt, lt in self.ty.leaves(s.elem):
             name = self.leaf_name('E|%s' % s.elem, p)
             arr = self.heap_get(st, name, T.ARR(T.INT, T.ARR(T.INT, srt)))
-            self.record_write(('heap', name))
+            self.record_write(('heap', name), s.base)
             st.heap[name] = T.store(arr, s.base, T.fresh('hv_elems', T.ARR(T.INT, srt)))
 
     def copy_elems(self, st, dst, doff, src, soff, n, keep_rest_only_if=None):
@@ -525,7 +543,7 @@ class CallMixin:
             sname = self.leaf_name('E|%s' % src.elem, p)
             arr = self.heap_get(st, name, T.ARR(T.INT, T.ARR(T.INT, srt)))
             sarr = self.heap_get(st, sname, T.ARR(T.INT, T.ARR(T.INT, srt)))
-            self.record_write(('heap', name))
+            self.record_write(('heap', name), dst.base)
             if n[0] == 'i' and n[1] <= 4:
                 inner = T.select(arr, dst.base)
                 for j in range(n[1]):
@@ -560,6 +578,7 @@ class CallMixin:
         self.ifacespecs = {}
         self.chanspecs = {}
         self.closespecs = {}
+        self.lemmas_used = set()
         self.go_sites = []
         self.spawned = False
         self.top_frame = self.new_frame()
@@ -627,6 +646,35 @@ class CallMixin:
                 except Unsupported as e:
                     self.elab_fail('param %s: %s' % (path, e))
         if spec:
+            for c in spec.using:
+                try:
+                    ast = parse_expr(c.text)
+                    lname, largs = (ast[1], ast[2]) if ast[0] == 'call' else (ast[1], [])
+                    lm = self.specs.lemmas.get(lname)
+                    if lm is None:
+                        raise Unsupported('unknown lemma %s' % lname)
+                    given = [self.eval(a, env) for a in largs]
+                    names2 = {}
+                    qv = []
+                    for i, (pn, ps) in enumerate(lm.params):
+                        if i < len(given):
+                            v = given[i][0]
+                            if isinstance(v, SeqV):
+                                v = v.arr
+                            names2[pn] = (v, given[i][1])
+                        else:
+                            bn = T.fresh_name(pn)
+                            if not hasattr(self, 'bound_names_all'):
+                                self.bound_names_all = set()
+                            self.bound_names_all.add(bn)
+                            names2[pn] = (T.V(bn, SORTS.get(ps, T.INT)), None)
+                            qv.append((bn, SORTS.get(ps, T.INT)))
+                    body = self.eval_bool(lm.parse(), Env(names2, st, self.entry_state, {}, self.pkg))
+                    self.hyps.append(T.forall(qv, body))
+                    self.lemmas_used.add(lname)
+                    self.clause_hits[id(c)] = 1
+                except Unsupported as e:
+                    self.elab_fail('using %r: %s' % (c.text, e), c)
             for table, store_ in ((spec.sends, self.chanspecs), (spec.closes, self.closespecs)):
                 for path, ps in table.items():
                     try:
@@ -682,3 +730,95 @@ class CallMixin:
                                        % (c.kind, c.text))
         self.exit_state = ex
         self.exit_env = envx
+        self.check_frame(ex, env, envx, spec)
+
+    def check_frame(self, ex, env0, envx, spec):
+        """everything the function changed and a caller can see must be covered by its `modifies` clause
+        (callers havoc exactly that).  Writes to objects allocated by this run are invisible to the caller."""
+        locs = list(spec.modifies) if (spec is not None and spec.modifies) else []
+        if 'heap' in [l.strip() for l in locs]:
+            return
+        allowed = {}     # heap array name -> list of allowed first-level keys (terms) ; None = whole array
+        cells_ok = set()
+        for loc in locs:
+            loc = loc.strip()
+            try:
+                m = re.match(r'^(.*)\[\*\]$', loc)
+                if m:
+                    x, tn = self.eval(parse_expr(m.group(1)), env0)
+                    for p, srt, lt in self.ty.leaves(x.elem):
+                        allowed.setdefault(self.leaf_name('E|%s' % x.elem, p), []).append(x.base)
+                    continue
+                m = re.match(r'^\*(\w+)$', loc)
+                m2 = re.match(r'^(.*)\.\*$', loc)
+                if m or m2:
+                    x, tn = self.eval(parse_expr((m or m2).group(1)), env0)
+                    if is_term(x) and x in self.iface_static:
+                        tn, x = self.iface_static[x]
+                    stn = self.ty.elem(tn) if tn and self.ty.kind(tn) == 'pointer' else tn
+                    if stn is None or self.ty.kind(stn) != 'struct':
+                        # target type unknown (interface value): any struct field array may change at that ref
+                        allowed.setdefault('*', []).append(self.uf_pay(x) if is_term(x) else x)
+                        allowed['*'].append(x)
+                        continue
+                    for fname, ftype in self.ty.struct_fields(stn):
+                        for p, srt, lt in self.ty.leaves(ftype):
+                            allowed.setdefault(self.leaf_name('F|%s|%s' % (stn, fname), p), []).append(x)
+                    continue
+                ast = parse_expr(loc)
+                if ast[0] == 'name':
+                    if ast[1] in env0.cellnames:
+                        cells_ok.add(env0.cellnames[ast[1]][0])
+                    continue
+                if ast[0] == 'sel':
+                    x, tn = self.eval(ast[1], env0)
+                    stn = self.ty.elem(tn) if self.ty.kind(tn) == 'pointer' else tn
+                    ft = dict(self.ty.struct_fields(stn))[ast[2]]
+                    for p, srt, lt in self.ty.leaves(ft):
+                        allowed.setdefault(self.leaf_name('F|%s|%s' % (stn, ast[2]), p), []).append(x)
+                    continue
+                if ast[0] == 'call' and ast[1] in self.specs_ghostfields():
+                    x = self.eval_int(ast[2][0], env0)
+                    allowed.setdefault('G|' + ast[1], []).append(x)
+                    continue
+            except (Unsupported, KeyError, AttributeError) as e:
+                self.elab_fail('modifies %s: %s' % (loc, e))
+        # cells visible to the caller: captured variables and ghost cells
+        for cid, v0 in self.entry_state.cells.items():
+            if not (isinstance(cid, tuple) and cid and cid[0] in ('fv', 'ghost')):
+                continue
+            if cid in cells_ok:
+                continue
+            v1 = ex.cells.get(cid)
+            if v1 is None or same_value(v0, v1):
+                continue
+            from .state import map_leaves
+            eqs = []
+            try:
+                map_leaves(lambda a, b: (eqs.append(T.eq(a, b)), a)[1], v0, v1)
+            except Unsupported:
+                eqs = [T.FALSE]
+            self.oblige('frame', T.and_(*eqs), ex, 'variable %s is changed but not listed in modifies' % (cid[1],), '',
+                        slug='var-%s' % cid[1])
+        fresh_refs = list(self.alloc_refs)
+        for name in sorted(set(ex.heap)):
+            if name == '#epoch':
+                continue
+            a1 = ex.heap[name]
+            a0 = self.heap0.get(name)
+            if a0 is None:
+                a0 = T.V('H0|' + name, T.sort_of(a1))
+                self.heap0[name] = a0
+            if a1 == a0:
+                continue
+            keys = allowed.get(name, [])
+            if name.startswith('F|') and '*' in allowed:
+                keys = keys + allowed['*']
+            k = T.fresh('frame_k')
+            conds = [T.not_(T.eq(k, r)) for r in keys]
+            # allocations of this run are ordered: fresh refs are > every pre-existing reference the caller can hold
+            if fresh_refs:
+                conds.append(T.lt(k, fresh_refs[0]) if name[0] in 'FEBMG' else T.TRUE)
+            goal = T.implies(T.and_(*conds), T.eq(T.select(a1, k), T.select(a0, k)))
+            self.oblige('frame', goal, ex, 'heap component %s is changed outside the modifies clause' % name, '',
+                        slug=re.sub(r'[^A-Za-z0-9_.|]', '_', name.replace('github.com/itchio/wharf/', ''))[:60])
